@@ -612,6 +612,11 @@ func run(c *core.Case) {
 			x := r.e.Version
 			if x != v {
 				gotW = lastTombstoneAt(k, x)
+			} else if t := lastTombstoneAt(k, v); t >= 0 && firstHolder(src, k.writes[t]) >= 0 {
+				// a stored tombstone at exactly the requested version exists: the lookup
+				// compares versions across sources, so that is the entry an answer with
+				// Version == v stands for (an older tombstone of a memtable would lose to it)
+				gotW = t
 			}
 			if gotW < 0 {
 				for i, s := range src {
